@@ -15,6 +15,7 @@ Oracle: token streams of input and output, re-lexed by the specification lexer (
 import collections
 import os
 import re
+import subprocess
 
 from translators import t_mods
 from translators.t_opt import TranslateError
@@ -367,6 +368,72 @@ struct S { void m() { if (x) return; g(); } };
                bad == 0 and len(keep) > 0 and nrem > 0, "corr", "%d programs differ" % bad)
 
 
+def enum_comma_correspondence(ctx, exe, sc, thorough):
+    """model of enum_cleanup() (EnumComma.lean) = the binary on every enum body made of up to 4 (5 thorough) items out of
+    {enumerator, comma, comment line, #define line, #if/#endif lines, disabled region}, under mod_enum_last_comma = add / remove / force"""
+    import itertools
+    ITEMS = ["A", ",", "CMT", "DEF", "IFBLK", "REGION"]
+    bodies = []
+    for n in range(0, 6 if thorough else 5):
+        bodies += list(itertools.product(ITEMS, repeat=n))
+    if not thorough:
+        bodies = [b for i, b in enumerate(bodies) if len(b) < 4 or (i + ctx.seed) % 3 == 0]
+    text_lines, model_toks, want_words = [], [], []
+    k = 0
+    per_enum = []
+    for b in bodies:
+        k += 1
+        lines = ["enum E%d" % k, "{"]
+        toks = ["x0", "x0", "s0", "o0", "s0"]            # `enum` `E` newline `{` newline
+        words = ["enum", "E%d" % k, "{"]
+        for j, it in enumerate(b):
+            if it == "A":
+                lines.append("  A%d_%d" % (k, j)); toks += ["x0", "s0"]; words.append("A%d_%d" % (k, j))
+            elif it == ",":
+                lines.append("  ,"); toks += ["c0", "s0"]; words.append(",")
+            elif it == "CMT":
+                lines.append("  /* c */"); toks += ["s0", "s0"]
+            elif it == "DEF":
+                lines.append("#define M%d_%d 1" % (k, j)); toks += ["x1", "x1", "x1", "x1", "s0"]; words += ["#", "define", "M%d_%d" % (k, j), "1"]
+            elif it == "IFBLK":
+                lines += ["#if X", "#endif"]; toks += ["x1", "x1", "x1", "s0", "x1", "x1", "s0"]; words += ["#", "if", "X", "#", "endif"]
+            else:
+                lines += ["/* *INDENT-OFF* */", "  rawtext%d" % k, "/* *INDENT-ON* */"]; toks += ["s0", "s0", "i0", "s0", "s0", "s0"]; words.append("rawtext%d" % k)
+        lines.append("};")
+        toks += ["E0", "x0", "s0"]
+        words += ["}", ";"]
+        text_lines += lines
+        per_enum.append((b, toks, words))
+    text = "\n".join(text_lines) + "\n"
+    src = sc.write(text, ".c")
+    bad = 0
+    for act, code in (("add", 1), ("remove", 2), ("force", 3)):
+        cfg = sc.cfg(None, {"mod_enum_last_comma": act})
+        r = subprocess.run([exe, "-q", "-c", cfg, "-l", "C", "-f", src], stdout=subprocess.PIPE, stderr=subprocess.PIPE, timeout=120)
+        out = r.stdout.decode("latin1")
+        out = re.sub(r"/\*.*?\*/", " ", out)
+        real = re.findall(r"[A-Za-z_0-9]+|\S", out)
+        ans = common.run_driver(["enumc.run %d %s" % (code, " ".join(t)) for _, t, _ in per_enum])
+        want = []
+        for (b, toks, words), a in zip(per_enum, ans):
+            # map the model's output back to words: its non-skip chunks, in order, are the input's non-skip chunks with commas added/removed
+            wi = iter([w for w in words if w != ","])
+            for t in a.split():
+                if t[0] == "s":
+                    continue
+                want.append("," if t[0] == "c" else next(wi))
+        ctx.case("enumc:%s:%d" % (act, len(per_enum)), nontrivial=True)
+        if r.returncode != 0 or real != want:
+            bad += 1
+            i = next((x for x in range(min(len(real), len(want))) if real[x] != want[x]), min(len(real), len(want)))
+            ctx.violation("enum_cleanup(): the binary and the model (EnumComma.lean) differ under mod_enum_last_comma=%s at output token %d: binary ...%s, model ...%s (exit %s)"
+                          % (act, i, " ".join(real[max(0, i - 8):i + 4]), " ".join(want[max(0, i - 8):i + 4]), r.returncode),
+                          {"options": {"mod_enum_last_comma": act}, "input_text": text[:3000], "lang": "C",
+                           "how": "props/c04.py enum_comma_correspondence builds the text; uncrustify -q -c cfg -l C; tokens compared with `enumc.run` of uncdrv"},
+                          key=None, found_input=True)
+    ctx.oblige("correspondence: enum_cleanup() model = binary on %d enum bodies x add/remove/force" % len(per_enum), bad == 0, "corr", "%d" % bad)
+
+
 def run(ctx):
     ctx.cov["rule"] = ("one case = one run of the hook build on (input, configuration): input = generated C/C++/Java program plus a fixed block of "
                        "constructs the mod_ options act on, or a corpus file; configuration = one mod_ option singly, a random combination of "
@@ -402,6 +469,13 @@ def run(ctx):
     common.lean_extra(ctx, "UncModel.Props.IntTypes", ["IntTypes_only_int_edited", "IntTypes_untouched_without_keywords",
                                                         "IntTypes_preproc_boundary_witness"], namespace="Unc.IntTy")
     common.lean_extra(ctx, "UncModel.Props.RemoveReturns", ["RmRet_only_trailing_return", "RmRet_old_removes_inner_return_witness"], namespace="Unc.RmRet")
+    common.lean_extra(ctx, "UncModel.Props.EnumComma", ["EnumC_step_only_comma", "EnumC_step_keeps_preproc", "EnumC_step_insert_position", "EnumC_step_add_idem",
+                                                         "EnumC_run_only_comma", "EnumC_old_edits_macro_body_witness"], namespace="Unc.EnumC")
+    try:
+        enum_comma_correspondence(ctx, exe, sc, thorough)
+    except Exception as e:
+        import traceback
+        ctx.oblige("enum_cleanup correspondence ran", False, "internal", traceback.format_exc()[-1500:])
     try:
         remove_returns_correspondence(ctx, exe, sc, thorough)
     except Exception as e:
